@@ -14,13 +14,28 @@ def main():
     tier, seed = 'quick', '1'
     a = sys.argv[2:]
     while a:
-        if a[0] == '--props': props = a[1].split(','); a = a[2:]
+        if a[0] == '--props': props = [x for x in a[1].split(',') if x]; a = a[2:]
         elif a[0] == '--tier': tier = a[1]; a = a[2:]
         elif a[0] == '--seed': seed = a[1]; a = a[2:]
+        elif a[0] == '--nodemo': a = a[1:]
         else: raise SystemExit('bad arg ' + a[0])
     st = sh('git -C /repo status --porcelain').stdout.strip()
     if st:
         raise SystemExit('/repo is not clean:\n' + st)
+    demo = d + '/demo'
+    def run_demo():
+        """The sub-agent's own demonstration, re-run against /repo in a scratch copy (nothing is left behind)."""
+        if not os.path.isdir(demo):
+            return None
+        tmp = sh('mktemp -d /dev/shm/seeddemo.XXXXXX').stdout.strip()
+        sh('cp -r %s/. %s/ && cp /repo/go.sum %s/' % (demo, tmp, tmp))
+        has_test = any(f.endswith('_test.go') for f in os.listdir(tmp))
+        cmd = 'go test -count=1 ./...' if has_test else 'go run .'
+        r = sh('cd %s && GOFLAGS=-mod=mod GOPROXY=off timeout 900 %s' % (tmp, cmd))
+        sh('rm -rf ' + tmp)
+        tail = (r.stdout + r.stderr).strip().splitlines()[-6:]
+        return {'exit': r.returncode, 'tail': tail}
+    without = run_demo() if '--nodemo' not in sys.argv else None
     r = sh('git -C /repo apply --whitespace=nowarn %s/patch.diff' % d)
     if r.returncode != 0:
         raise SystemExit('patch does not apply: ' + r.stderr)
@@ -30,6 +45,10 @@ def main():
         if b.returncode != 0:
             out['build'] = 'FAILED: ' + b.stderr[-400:]
         else:
+            if without is not None:
+                with_ = run_demo()
+                out['demo'] = {'without_change': without, 'with_change': with_, 'confirmed': without['exit'] == 0 and with_['exit'] != 0}
+                print(sid, 'demo', 'confirmed' if out['demo']['confirmed'] else 'NOT CONFIRMED (without exit=%s, with exit=%s)' % (without['exit'], with_['exit']))
             for p in props:
                 t0 = time.time()
                 c = sh('cd /verif && ./check %s --tier %s --seed %s' % (p, tier, seed))
